@@ -393,6 +393,10 @@ def src_search(ctx):
             check_addr(ctx, int(p[1]), unh(p[2]), 'src-fn')
         elif p[0] == 'b64':
             check_text(ctx, unh(p[1]).decode('latin-1'), 'src-fn')
+            if not getattr(ctx, '_c13_src_subst', False):      # the text reader differs: all 48 x 63 substitutions of two friendly texts
+                ctx._c13_src_subst = True
+                check_subst(ctx, 0, rng.randbytes(32), True, True, False)
+                check_subst(ctx, -1, rng.randbytes(32), False, False, True)
         elif p[0] == 'eqh':
             check_addr(ctx, int(p[1]), unh(p[2]), 'src-fn')
     if len(ctx.failures) > n0:
